@@ -353,7 +353,7 @@ func replayMain(args []string) {
 					continue
 				}
 				for _, m := range subs {
-				if k := getString(m, "kind"); k == "docscale" && *only == "scale" {
+				if k := getString(m, "kind"); (k == "docscale" || k == "count") && *only == "scale" {
 					// the nesting stages run the document families too
 				} else if *only != "" && k != *only {
 					continue
